@@ -744,7 +744,7 @@ fn run_wakers(sink: &mut Sink, asyncf: bool) {
 fn run_cross(sink: &mut Sink, asyncf: bool) {
     let per_sub = if asyncf { 2 } else { 1 }; // async subscribers hold two references (known finding D8)
     macro_rules! scen { ($new:expr, $flav:ty, $sub:expr, $tag:expr) => {{
-        for variant in 0..6 {
+        for variant in 0..8 {
             sink.case(&format!("XCF:{}:{variant}", $tag));
             let a: SharedObservable<T, $flav> = $new(T(1));
             let b: SharedObservable<T, $flav> = $new(T(2));
@@ -763,11 +763,23 @@ fn run_cross(sink: &mut Sink, asyncf: bool) {
                 1 => { a2 = b.clone(); expect("after a2 = b.clone()", 1, 1, 3, 1, sink); }
                 2 => { sa.clone_from(&sb); expect("after sa.clone_from(&sb)", 2, 0, 2, 2, sink); }
                 3 => { sa = sb.clone(); expect("after sa = sb.clone()", 2, 0, 2, 2, sink); }
+                // a weak reference of `a` overwritten by one of `b` (clone_from / assignment), then upgraded: a handle of `b`
+                6 | 7 => {
+                    let mut wa = a.downgrade();
+                    if variant == 6 { wa.clone_from(&b.downgrade()); } else { wa = b.downgrade(); }
+                    let up = wa.upgrade();
+                    if up.is_none() { sink.oracle_fail("C19,C03", "a weak reference overwritten by one of a live observable does not upgrade"); }
+                    expect("after a weak reference of a was overwritten by one of b and upgraded", 2, 1, 3, 1, sink);
+                    if (a.weak_count(), b.weak_count()) != (0, 1) { sink.oracle_fail("C19", &format!("weak counts of the two observables are ({}, {}), the live weak references say (0, 1)", a.weak_count(), b.weak_count())); }
+                    drop(up);
+                    expect("after dropping the upgraded handle", 2, 1, 2, 1, sink);
+                    drop(wa);
+                }
                 _ => {}
             }
             drop(b2);
             match variant { 0 | 1 => expect("after dropping a clone of b", 1, 1, 2, 1, sink), 2 | 3 => expect("after dropping a clone of b", 2, 0, 1, 2, sink), _ => {} }
-            if variant >= 4 {
+            if variant == 4 || variant == 5 {
                 // the LAST owner of `a` is overwritten by a handle of `b`: `a` has no owner left, its stream ends (C03)
                 let wa = a2.downgrade();
                 drop(a);
